@@ -846,7 +846,12 @@ def injections(ctx, rng, type_name, cls_name, base_pairs):
 			add(with_member(key, {'b': rb(rng, 23).hex()}), 'bad-length', f'{key}: decoded address of 23 bytes', key)
 		elif codec.kind(target) == 'Enum' and not target.is_bitwise:
 			some = target.values[0].name
-			for bad, what in (('bogus', 'unknown name'), (some, 'upper-case name'), (some.lower() + ' ', 'trailing space'), ('', 'empty name')):
+			bad_names = [('bogus', 'unknown name'), (some, 'upper-case name'), (some.lower() + ' ', 'trailing space'), ('', 'empty name')]
+			# names that mean something for FLAGS ('none' = no flag) or look like a neutral value are unknown names of a plain enumeration
+			for neutral in ('none', 'null', 'zero', 'default', '0'):
+				if neutral not in [v.name.lower() for v in target.values]:
+					bad_names.append((neutral, 'neutral-looking unknown name'))
+			for bad, what in bad_names:
 				add(with_member(key, {'s': bad}), 'bad-enum-name', f'{key}: enum {what} {bad!r}', key)
 			unused = next(v for v in range(0, 70000) if v not in [e.value for e in target.values])
 			add(with_member(key, {'i': unused}), 'bad-enum-value', f'{key}: {unused} is not a value of {field_type}', key)
